@@ -52,6 +52,7 @@ CLOSE = SITES.copy()
 CLOSE[1] = [0.0, 0.0, 1.2]
 GEOMS = {"generic": SITES, "collinear": COLLINEAR, "close-pair": CLOSE}
 TOL = 1e-13
+FAR_SHIFT = np.array([8192.0, -16384.0, 4096.0])
 
 
 # ------------------------------------------------------------------------------ reference model
@@ -153,8 +154,15 @@ def _config(arg):
     res = WorkerResult(section=f"becke:{len(atnums)}-atoms")
     atnums = np.array(atnums, dtype=int)
     n = len(atnums)
-    atcoords = GEOMS[gname][:n] + lattice.jitter(seed, f"{gname}{n}", 0.0, 0.03)
+    far = gname.endswith("-far")
+    atcoords = GEOMS[gname.replace("-far", "")][:n] + lattice.jitter(seed, f"{gname}{n}", 0.0, 0.03)
     pts = point_set(atcoords, seed)
+    if far:
+        # the same molecule and its nearby points 1e4 bohr from the origin (added after seeded change C06-I was missed:
+        # distances from the expanded square |a|^2 + |p|^2 - 2 a.p lose eps |p|^2 / d there; differences of coordinates
+        # do not).  The reference works on the shifted coordinates themselves.
+        pts = pts[np.linalg.norm(pts, axis=1) < 12] + FAR_SHIFT
+        atcoords = atcoords + FAR_SHIFT
     table = bragg()
     W = ref_weights(pts, atcoords, atnums, order, table)
     case = {"geometry": gname, "atnums": atnums.tolist(), "order": order}
@@ -308,11 +316,16 @@ def _motions(res, bw, pts, atcoords, atnums, n, case, full):
         if full:
             base = np.array([bw.generate_weights(pts, atcoords, atnums, select=a) for a in range(n)])
             for ir, rot in enumerate(rotations()):
-                for shift in (np.zeros(3), np.array([3.3, -7.1, 0.9])):
+                for shift in (np.zeros(3), np.array([3.3, -7.1, 0.9]), np.array([131072.0, -65536.0, 32768.0])):
+                    if shift[0] > 1e5 and (ir % 6 or str(case.get("geometry", "")).endswith("-far")):
+                        continue
                     res.count(n * len(pts))
                     p2, c2 = pts @ rot.T + shift, atcoords @ rot.T + shift
                     moved = np.array([bw.generate_weights(p2, c2, atnums, select=a) for a in range(n)])
-                    if _gt(np.max(np.abs(moved - base)), 1e-12):
+                    # moving the system rounds every coordinate to the spacing of doubles at its new magnitude: a change
+                    # of the positions by eps |x|, which the weights follow with slopes of order one per bohr
+                    mag = max(float(np.max(np.abs(p2))), float(np.max(np.abs(pts))))
+                    if _gt(np.max(np.abs(moved - base)), 1e-12 + 256 * np.finfo(float).eps * mag):
                         res.violation("not-invariant-under-rigid-motion", f"weights change by {np.max(np.abs(moved - base)):.3e} under "
                                       f"cube rotation #{ir} + translation {shift.tolist()}", case)
                         break
@@ -329,6 +342,7 @@ def _motions(res, bw, pts, atcoords, atnums, n, case, full):
 
 
 def _compare(res, rname, key, got, want, case, atom, seg):
+    TOL = 1e-10 if str(case.get("geometry", "")).endswith("-far") else globals()["TOL"]
     if got.shape != want.shape:
         res.violation(f"{rname}:shape", f"{rname}: shape {got.shape}, expected {want.shape}", case)
         return
@@ -481,6 +495,10 @@ def configs(thorough):
                 for order in orders:
                     full = (ai % 5 == 0) or len(set(a)) > 1 and ai % 3 == 0
                     out.append((gname, a, order, full))
+    # far-from-origin placements of a few molecules (all routes)
+    for a in ((1, 8), (6, 1, 8), (8, 1, 1, 6), (1, 86, 8, 36, 6)):
+        out.append(("generic-far", a, 3, True))
+    out.append(("close-pair-far", (8, 36, 1), 3, True))
     return out
 
 
